@@ -48,7 +48,22 @@ func genC19(kind string) func(r *core.Rng) any {
 		conv := map[string]float64{"mm": 1, "": 25.4 / 96, "px": 25.4 / 96, "cm": 10, "in": 25.4, "pt": 25.4 / 72}[unit]
 		// width/height in the unit such that the canvas is vw*scale x vh*scale mm
 		fmt.Fprintf(&sb, `<svg xmlns="http://www.w3.org/2000/svg"`)
-		if kind != "nosize" {
+		if kind == "sizes" {
+			// width and height independently absolute, "100%" or absent; the percentage of an outermost
+			// svg element refers to a viewport that a stand-alone document does not have: like an absent
+			// attribute it leaves the size of the viewBox in px
+			wa, ha := r.Intn(3), r.Intn(3)
+			if wa == 0 {
+				fmt.Fprintf(&sb, ` width="%s%s"`, c19Num(vw*scale/conv), unit)
+			} else if wa == 1 {
+				sb.WriteString(` width="100%"`)
+			}
+			if ha == 0 {
+				fmt.Fprintf(&sb, ` height="%s%s"`, c19Num(vh*scale*r.Range(0.5, 1.5)/conv), unit)
+			} else if ha == 1 {
+				sb.WriteString(` height="100%"`)
+			}
+		} else if kind != "nosize" {
 			fmt.Fprintf(&sb, ` width="%s%s" height="%s%s"`, c19Num(vw*scale/conv), unit, c19Num(vh*scale/conv), unit)
 		}
 		fmt.Fprintf(&sb, ` viewBox="%s %s %s %s">`, c19Num(minx), c19Num(miny), c19Num(vw), c19Num(vh))
@@ -455,12 +470,12 @@ func evalSVG(doc string, eps float64) (W, H float64, prims []c12Prim, err error)
 					v[i], _ = strconv.ParseFloat(vb[i], 64)
 				}
 				wpx, hpx := v[2], v[3] // absent width/height: 100% of the viewBox in px
-				if a, ok := attr["width"]; ok {
+				if a, ok := attr["width"]; ok && !strings.HasSuffix(strings.TrimSpace(a), "%") {
 					if wpx, err = parseLen(a); err != nil {
 						return 0, 0, nil, err
 					}
 				}
-				if a, ok := attr["height"]; ok {
+				if a, ok := attr["height"]; ok && !strings.HasSuffix(strings.TrimSpace(a), "%") {
 					if hpx, err = parseLen(a); err != nil {
 						return 0, 0, nil, err
 					}
@@ -851,6 +866,7 @@ func init() {
 			"a reference evaluator written from the SVG specification yields the canvas size and the painted primitives; the canvas returned by ParseSVG is replayed to a recording renderer and compared at 100 uniform points plus 25 per contour (fills by exact winding, strokes by exact stroke regions; margin 0.2% of the canvas); stratum roundtrip: the library's own SVG output of C12's drawings",
 		Strata: []core.Stratum{
 			{Name: "documents", Quick: 1200, Thorough: 40000, Gen: genC19("documents")},
+			{Name: "sizes", Quick: 400, Thorough: 8000, Gen: genC19("sizes"), Note: "width and height independently absolute, 100% or absent"},
 			{Name: "properties", Quick: 600, Thorough: 15000, Gen: genC19("properties"), Note: "fill-rule, line join, line cap and miter limit with every value (the initial ones included) on groups, elements, style attributes and style sheet rules; pentagrams and nested squares"},
 			{Name: "viewbox", Quick: 400, Thorough: 10000, Gen: genC19("viewbox")},
 			{Name: "css", Quick: 400, Thorough: 10000, Gen: genC19("css")},
